@@ -1,2 +1,338 @@
-def run(a, rep, TypesBuild, tref):
-    rep.cap("not built yet")
+"""C03 — code generation succeeds and its output compiles for every valid definition.
+
+Programs are enumerated from a grammar (type shapes in every position, recursion, names that
+collide with Rust keywords / prelude / generator imports, nested packages, service features,
+configurations); each is run through the real generator in its own process (a generation
+failure aborts a whole IR, so risky items are isolated) and the emitted trees are packed as
+modules into a few crates that are type-checked with `cargo check` against /repo's crates."""
+import json
+import os
+import re
+import shutil
+import time
+
+import harness as H
+import space
+from space import PKG, R
+
+S, I, D, B = space.prim("STRING"), space.prim("INTEGER"), space.prim("DOUBLE"), space.prim("BOOLEAN")
+
+KEYWORDS = ["as", "break", "const", "continue", "crate", "else", "enum", "extern", "false", "fn", "for", "if", "impl", "in", "let", "loop", "match", "mod", "move", "mut", "pub", "ref",
+            "return", "self", "static", "struct", "super", "trait", "true", "type", "unsafe", "use", "where", "while", "async", "await", "dyn", "abstract", "become", "box", "do", "final",
+            "macro", "override", "priv", "typeof", "unsized", "virtual", "yield", "try", "gen", "union", "auto", "default", "raw", "safe"]
+# identifiers the generated code itself uses (prelude, imports, helper names)
+IDENTS = ["Option", "Some", "None", "Box", "Vec", "String", "Result", "Ok", "Err", "Into", "IntoIterator", "Iterator", "Send", "Sync", "Default", "Clone", "Debug", "Copy", "Unknown", "Builder",
+          "Self", "From", "Display", "PartialEq", "Eq", "PartialOrd", "Ord", "Hash", "BTreeMap", "BTreeSet", "Any", "Bytes", "Uuid", "DateTime", "Utc", "SafeLong", "DoubleKey",
+          "ResourceIdentifier", "BearerToken", "Error", "Variant", "Type", "Value", "Visitor", "Stage0", "Deserialize", "Serialize", "Educe", "Client", "Endpoint"]
+# lower-case names the generated code uses for locals / helpers / methods
+LOCALS = ["builder", "build", "new", "value", "type", "variant", "map", "s", "d", "fmt", "request", "response", "path", "body", "auth", "runtime", "client", "handler", "parts", "it", "key",
+          "visitor", "deserializer", "serializer", "from", "into", "iter", "clone", "default", "ser", "de", "conjureObject", "conjure_object", "std", "core", "serde", "result", "option", "vec", "string",
+          "unknown", "safeParams", "requestContext", "responseExtensions", "queryParams"]
+
+
+class Program:
+    def __init__(self, pid, label, ir, cfg=None, cls=None):
+        self.pid = pid
+        self.label = label
+        self.ir = ir
+        self.cfg = cfg or {}
+        self.cls = cls or label
+
+
+def to_upper_snake(n):
+    return re.sub(r"(?<=[a-z0-9])([A-Z])", r"_\1", n).upper()
+
+
+def shape_programs(thorough):
+    """type shapes in every position that accepts them"""
+    shs = space.shapes(2, thorough)
+    if not thorough:
+        l2 = [s for s in shs if s.depth == 2]
+        shs = [s for s in shs if s.depth < 2] + l2[::3] + [s for s in l2 if not space.compilable(s)]
+    progs = []
+    per = 12
+    for ci in range(0, len(shs), per):
+        part = shs[ci:ci + per]
+        types, _ = space.types_for_shapes(part, ci)
+        errs, eps = [], []
+        for j, s in enumerate(part):
+            n = ci + j
+            errs.append(space.error("Err%d" % n, "Verif", "INVALID_ARGUMENT", [space.field("safeArg", s.ir)], [space.field("unsafeArg", s.ir), space.field("other", S)], PKG))
+            eps.append(space.endpoint("body%d" % n, "POST", "/b/%d" % n, [space.arg("body", s.ir, "body")], returns=s.ir))
+        svc = space.service("ShapeService%d" % ci, eps, PKG)
+        label = "shapes[" + "; ".join(s.text for s in part) + "]"
+        progs.append(Program("sh%d" % ci, label, space.ir(space.FIXED_TYPES + types, [svc], errs), cls="type-shapes"))
+    # known-doubtful single shapes get a program of their own so that they are attributable
+    return progs, shs
+
+
+PLAIN_LEAVES = [("string", S), ("integer", I), ("double", D), ("boolean", B), ("safelong", space.prim("SAFELONG")), ("uuid", space.prim("UUID")), ("rid", space.prim("RID")),
+                ("datetime", space.prim("DATETIME")), ("binary", space.prim("BINARY")), ("E", R("E")), ("AliasStr", R("AliasStr")), ("AliasDbl", R("AliasDbl")), ("AliasBin", R("AliasBin"))]
+
+
+def param_programs():
+    """PLAIN-capable shapes as path, query and header parameters — one program per (leaf, kind)"""
+    progs = []
+    for name, t in PLAIN_LEAVES + [("bearertoken", space.prim("BEARERTOKEN"))]:
+        variants = [("path", t, "path")] if name != "bearertoken" else []
+        if name != "bearertoken":
+            variants += [("query", t, "query"), ("query-optional", space.opt(t), "query"), ("query-list", space.lst(t), "query"), ("query-set", space.st(t), "query")]
+        variants += [("header", t, "header"), ("header-optional", space.opt(t), "header")]
+        for vname, vt, kind in variants:
+            if kind == "path":
+                ep = space.endpoint("ep", "GET", "/p/{arg}", [space.arg("arg", vt, "path")])
+            elif kind == "query":
+                ep = space.endpoint("ep", "GET", "/p", [space.arg("arg", vt, "query", "arg")])
+            else:
+                ep = space.endpoint("ep", "GET", "/p", [space.arg("arg", vt, "header", "X-Arg")])
+            pid = "param_%s_%s" % (name, vname.replace("-", "_"))
+            progs.append(Program(pid, "%s parameter of type %s" % (vname, name if "-" not in vname else vname.split("-")[1] + "<" + name + ">"), space.ir(space.FIXED_TYPES, [space.service("ParamService", [ep], PKG)]), cls="parameter:%s:%s" % (vname, name)))
+    # aliases of optional / list as query and header parameters
+    extra = [space.alias("OptInt", space.opt(I), PKG), space.alias("ListStr", space.lst(S), PKG), space.alias("SetE", space.st(R("E")), PKG), space.alias("OptAliasAlias", R("OptInt"), PKG)]
+    eps = [space.endpoint("q", "GET", "/q", [space.arg("a", R("OptInt"), "query", "a"), space.arg("b", R("ListStr"), "query", "b"), space.arg("c", R("SetE"), "query", "c"), space.arg("d", R("OptAliasAlias"), "query", "d"),
+                                            space.arg("h", R("OptInt"), "header", "X-H"), space.arg("i", R("OptAliasAlias"), "header", "X-I")])]
+    progs.append(Program("param_aliases", "alias-of-optional / alias-of-collection parameters", space.ir(space.FIXED_TYPES + extra, [space.service("AliasParams", eps, PKG)]), cls="parameter:aliases"))
+    return progs
+
+
+def name_programs(thorough):
+    progs = []
+    lower = list(dict.fromkeys(KEYWORDS + LOCALS))
+    for n in lower:
+        if n == "body":
+            continue
+        safe = re.sub(r"[^a-zA-Z0-9]", "_", n)
+        types = [space.obj("Holder", [space.field(n, S), space.field("other", space.opt(I))], PKG),
+                 space.union("Pick", [space.field(n, S), space.field("otherwise", I)], PKG)]
+        progs.append(Program("nm_field_%s" % safe, "field / union variant named `%s`" % n, space.ir(types), cls="name:field:" + n))
+        ep = space.endpoint(n, "POST", "/x/{%s}" % n, [space.arg(n, S, "path"), space.arg(n + "Q", opt_s(), "query", n), space.arg("body", S, "body")], returns=S)
+        progs.append(Program("nm_endpoint_%s" % safe, "endpoint and path argument named `%s`" % n, space.ir([], [space.service("Svc", [ep], PKG)]), cls="name:endpoint+arg:" + n))
+        err = space.error("Oops", "Ns", "INTERNAL", [space.field(n, S)], [space.field("zzz", I)], PKG)
+        progs.append(Program("nm_errarg_%s" % safe, "error argument named `%s`" % n, space.ir([], [], [err]), cls="name:error-arg:" + n))
+        if n in KEYWORDS:
+            t = space.obj("InPkg", [space.field("a", S)], "com.verif.%s.inner" % n)
+            u = space.obj("User", [space.field("r", space.ref("InPkg", "com.verif.%s.inner" % n))], "com.verif.other")
+            progs.append(Program("nm_pkg_%s" % safe, "package segment named `%s`" % n, space.ir([t, u]), cls="name:package:" + n))
+    for n in IDENTS + [k.capitalize() for k in ("self", "type", "box", "async", "try")]:
+        types = [space.obj(n, [space.field("a", S), space.field("again", space.opt(space.ref(n, PKG)))], PKG),
+                 space.obj("Uses" + n, [space.field("x", space.ref(n, PKG)), space.field("xs", space.lst(space.ref(n, PKG))), space.field("m", space.mp(S, space.ref(n, PKG)))], PKG),
+                 space.union("Pick" + n, [space.field("it", space.ref(n, PKG)), space.field("s", S), space.field("o", space.opt(I))], PKG),
+                 space.alias("Alias" + n, space.lst(space.ref(n, PKG)), PKG)]
+        ep = space.endpoint("go", "POST", "/go", [space.arg("body", space.ref(n, PKG), "body")], returns=space.opt(space.ref(n, PKG)))
+        progs.append(Program("nm_type_%s" % n, "object type named `%s`" % n, space.ir(types, [space.service("Svc" + n, [ep], PKG)]), cls="name:type:" + n))
+        up = to_upper_snake(n)
+        if up != "UNKNOWN":
+            progs.append(Program("nm_enum_%s" % n, "enum value named `%s`" % up, space.ir([space.enum("En", [up, "OTHER_ONE"], PKG), space.obj("HasEn", [space.field("e", R("En"))], PKG)]), cls="name:enum-value:" + up))
+        if thorough:
+            progs.append(Program("nm_union_%s" % n, "union type named `%s`" % n, space.ir([space.union(n, [space.field("a", S), space.field("b", space.lst(space.ref(n, PKG)))], PKG)]), cls="name:union-type:" + n))
+            progs.append(Program("nm_enumt_%s" % n, "enum type named `%s`" % n, space.ir([space.enum(n, ["A", "B"], PKG), space.obj("H", [space.field("e", space.ref(n, PKG))], PKG)]), cls="name:enum-type:" + n))
+            progs.append(Program("nm_svc_%s" % n, "service named `%s`" % n, space.ir([], [space.service(n, [space.endpoint("go", "GET", "/go", [])], PKG)]), cls="name:service:" + n))
+    return progs
+
+
+def opt_s():
+    return space.opt(S)
+
+
+def recursion_program():
+    sp, _ = space.special_types()
+    extra = [
+        space.alias("LoopList", space.lst(R("LoopNode")), PKG),
+        space.obj("LoopNode", [space.field("next", R("LoopList")), space.field("m", space.mp(S, R("LoopList"))), space.field("d", space.opt(D))], PKG),
+        space.union("Tree", [space.field("leaf", D), space.field("node", space.lst(R("Tree"))), space.field("named", space.mp(S, R("Tree"))), space.field("maybe", space.opt(R("Tree")))], PKG),
+        space.obj("Direct", [space.field("u", R("DirectU"))], PKG),
+        space.union("DirectU", [space.field("stop", I), space.field("more", R("Direct"))], PKG),
+        space.obj("SetOfSelf", [space.field("kids", space.st(R("SetOfSelf"))), space.field("d", D)], PKG),
+    ]
+    eps = [space.endpoint("tree", "POST", "/tree", [space.arg("body", R("Tree"), "body")], returns=R("LoopNode"))]
+    return Program("recursion", "recursive types (through optional, list, set, map value, union, alias)", space.ir(space.FIXED_TYPES + sp + extra, [space.service("Rec", eps, PKG)]), cls="recursion")
+
+
+def package_programs():
+    progs = []
+    # incl. packages that differ in one component and agree again at a later index
+    pkgs = ["com.verif", "com.verif.a", "com.verif.a.b", "com.verif.c", "com.other.deep.er", "com", "com.verif.x.api", "com.verif.y.api", "com.verif.y.x.api", "org.verif.a"]
+    types = []
+    for i, p in enumerate(pkgs):
+        refs = [space.field("r%d" % j, space.opt(space.ref("T%d" % j, q))) for j, q in enumerate(pkgs)]
+        types.append(space.obj("T%d" % i, [space.field("s", S)] + refs, p))
+        types.append(space.union("U%d" % i, [space.field("t%d" % j, space.ref("T%d" % j, q)) for j, q in enumerate(pkgs)], p))
+        types.append(space.alias("A%d" % i, space.lst(space.ref("U%d" % ((i + 1) % len(pkgs)), pkgs[(i + 1) % len(pkgs)])), p))
+        types.append(space.enum("E%d" % i, ["X"], p))
+    errs = [space.error("Bad", "Ns", "CONFLICT", [space.field("t", space.ref("T2", pkgs[2]))], [], "com.verif.a")]
+    svcs = [space.service("Svc%d" % i, [space.endpoint("e", "POST", "/e", [space.arg("body", space.ref("T%d" % ((i + 2) % len(pkgs)), pkgs[(i + 2) % len(pkgs)]), "body")], returns=space.ref("A%d" % i, p))], p) for i, p in enumerate(pkgs)]
+    ir = space.ir(types, svcs, errs)
+    for strip in [None, "com", "com.verif", "com.verif.a", "org.nomatch", "com.ver"]:
+        progs.append(Program("pkg_strip_%s" % (strip or "none").replace(".", "_"), "nested packages referencing each other, stripPrefix=%s" % strip, ir, cfg={"strip": strip}, cls="packages:strip=%s" % strip))
+    return progs
+
+
+def service_programs():
+    progs = []
+    BIN, OBIN, ABIN = space.prim("BINARY"), space.opt(space.prim("BINARY")), R("AliasBin")
+    eps = []
+    n = 0
+    for auth in [None, "header", "SESSION"]:
+        for ctx in [[], ["server-request-context"]]:
+            eps.append(space.endpoint("noArgs%d" % n, "GET", "/n/%d" % n, [], auth=auth, tags=ctx))
+            eps.append(space.endpoint("args%d" % n, "PUT", "/a/%d/{p}" % n, [space.arg("p", I, "path"), space.arg("q", space.opt(S), "query", "q"), space.arg("body", R("Obj"), "body")], returns=space.lst(S), auth=auth, tags=ctx))
+            n += 1
+    for body, ret in [(BIN, None), (None, BIN), (BIN, BIN), (None, OBIN), (ABIN, ABIN), (OBIN, None), (space.opt(R("Obj")), space.opt(R("Obj"))), (R("AliasOpt"), R("AliasOpt")), (R("AliasList"), R("AliasList")), (space.prim("ANY"), space.prim("ANY")), (None, space.opt(ABIN))]:
+        args = [space.arg("body", body, "body")] if body is not None else []
+        eps.append(space.endpoint("io%d" % n, "POST", "/io/%d" % n, args, returns=ret))
+        n += 1
+    for lim in ["8b", "1 kb", "2MiB", "10mb", "1 GiB", "77"]:
+        eps.append(space.endpoint("limit%d" % n, "POST", "/l/%d" % n, [space.arg("body", S, "body")], tags=["server-limit-request-size: %s" % lim]))
+        n += 1
+    eps.append(space.endpoint("documented", "DELETE", "/d", [], docs="Does a thing.\n\n```\nlet x = code();\n```\n\n```java\nint y;\n```\nTrailing `inline` and */ odd /* chars \\ \"quoted\".", deprecated="use something else"))
+    eps.append(space.endpoint("markers", "GET", "/m/{id}", [space.arg("id", S, "path", markers=[space.SAFE_MARKER]), space.arg("t", S, "query", "t", tags=["safe", "other"])], markers=[space.external("Incubating", "com.palantir.foo", space.prim("ANY"))], tags=["some-tag", "another"]))
+    eps.append(space.endpoint("manyQuery", "GET", "/mq", [space.arg("a%d" % i, space.opt(I), "query", "a-%d" % i) for i in range(12)]))
+    types = [space.obj("Documented", [space.field("f", S, docs="field docs with ``` fence\n```\ncode\n```", deprecated="old")], PKG, docs="Type docs.\n\n```\nuntagged fence\n```")]
+    progs.append(Program("services", "service features (auth kinds, request context, binary bodies/returns, size limits, docs, markers, tags)", space.ir(space.FIXED_TYPES + types, [space.service("Features", eps, PKG, docs="Service docs ```\nfence\n```")]), cls="service-features"))
+    # services of sizes 0 / 1 and a service without binary anywhere
+    progs.append(Program("svc_empty", "service with no endpoints", space.ir([], [space.service("Nothing", [], PKG)]), cls="service:empty"))
+    progs.append(Program("svc_only_optbin", "service whose only streaming endpoint returns optional<binary>", space.ir([], [space.service("OptBin", [space.endpoint("get", "GET", "/g", [], returns=OBIN), space.endpoint("other", "GET", "/o", [], returns=S)], PKG)]), cls="service:only-optional-binary-return"))
+    progs.append(Program("svc_only_binreq", "service whose only streaming endpoint takes a binary body", space.ir([], [space.service("BinReq", [space.endpoint("put", "POST", "/p", [space.arg("body", BIN, "body")]), space.endpoint("other", "GET", "/o", [], returns=S)], PKG)]), cls="service:only-binary-request"))
+    progs.append(Program("svc_alias_optbin", "service returning an alias of optional<binary>", space.ir([space.alias("MaybeBlob", OBIN, PKG)], [space.service("AliasOptBin", [space.endpoint("get", "GET", "/g", [], returns=R("MaybeBlob"))], PKG)]), cls="service:alias-of-optional-binary-return"))
+    return progs
+
+
+def config_programs():
+    progs = []
+    base = recursion_program().ir
+    n = 0
+    for exhaustive in [False, True]:
+        for se in [False, True]:
+            for strip in [None, "com.verif"]:
+                progs.append(Program("cfg%d" % n, "configuration exhaustive=%s serializeEmpty=%s strip=%s" % (exhaustive, se, strip), base, cfg={"exhaustive": exhaustive, "serialize_empty": se, "strip": strip}, cls="config"))
+                n += 1
+    return progs
+
+
+def known_class(label):
+    return label
+
+
+def run(a, rep):
+    thorough = a.tier == "thorough"
+    t0 = time.time()
+    progs = []
+    sp, shs = shape_programs(thorough)
+    progs += sp + param_programs() + name_programs(thorough) + [recursion_program()] + package_programs() + service_programs() + config_programs()
+    if a.replay_case:
+        progs = [p for p in progs if p.pid == a.replay_case.get("program")]
+    root = os.path.join(H.WORK, "c03-" + a.tier)
+    jobs = []
+    for p in progs:
+        out = os.path.join(root, "gen", p.pid)
+        jobs.append((p.pid, p.ir, out, dict(exhaustive=p.cfg.get("exhaustive", False), serialize_empty=p.cfg.get("serialize_empty", False), strip=p.cfg.get("strip"))))
+    results = H.generate_many(jobs)
+    rep.extra["generate_s"] = round(time.time() - t0, 1)
+    by_id = {p.pid: p for p in progs}
+    generated = []
+    for p in progs:
+        rep.states += 1
+        rep.evaluations += 1
+        rep.transitions += 1
+        ok, err = results[p.pid]
+        if ok:
+            rep.outcome("generated")
+            generated.append(p)
+        else:
+            msg = err.strip().splitlines()[0] if err.strip() else "?"
+            rep.violation("C03|generation-failed|%s" % p.cls, "generation fails for: %s — %s" % (p.label, msg[:300]), {"program": p.pid, "label": p.label})
+            shutil.rmtree(os.path.join(root, "gen", p.pid), ignore_errors=True)
+    # pack the generated trees into check crates (members of one workspace)
+    ncrates = 8
+    members = []
+    groups = [generated[i::ncrates] for i in range(ncrates)]
+    for gi, group in enumerate(groups):
+        mods = "\n".join('#[path = "%s/mod.rs"]\npub mod %s;' % (os.path.join(root, "gen", p.pid), p.pid) for p in group)
+        crate = os.path.join(root, "ws", "chk%d" % gi)
+        H.write_crate(crate, "c03chk%d" % gi, lib_rs="#![allow(warnings)]\n" + mods + "\n")
+        toml = open(os.path.join(crate, "Cargo.toml")).read().replace("[workspace]\n\n", "")
+        H.sync_file(os.path.join(crate, "Cargo.toml"), toml)
+        try:
+            os.remove(os.path.join(crate, "Cargo.lock"))
+        except FileNotFoundError:
+            pass
+        members.append("chk%d" % gi)
+    ws = os.path.join(root, "ws")
+    H.sync_file(os.path.join(ws, "Cargo.toml"), "[workspace]\nresolver = \"2\"\nmembers = [%s]\n\n[profile.dev]\ndebug = 0\n" % ", ".join('"%s"' % m for m in members))
+    if not os.path.exists(os.path.join(ws, "Cargo.lock")):
+        shutil.copy(os.path.join(H.ROOT, "engines", "Cargo.lock"), os.path.join(ws, "Cargo.lock"))
+    t1 = time.time()
+    p = H.cargo(ws, "check", ["--workspace", "--keep-going"], json_messages=True)
+    rep.extra["check_s"] = round(time.time() - t1, 1)
+    errors = H.compile_errors(p.stdout)
+    if p.returncode != 0 and not errors:
+        rep.cap("cargo check failed without attributable compiler errors: %s" % p.stderr[-800:])
+    bad = {}
+    for file, code, msg in errors:
+        m = re.search(r"/gen/([^/]+)/", file)
+        pid = m.group(1) if m else None
+        if pid is None:
+            m2 = re.search(r"pub mod (\w+)", msg)
+            pid = m2.group(1) if m2 else "?"
+        bad.setdefault(pid, []).append((file, code, msg))
+    for pid, errs in sorted(bad.items()):
+        prog = by_id.get(pid)
+        if prog is None:
+            rep.cap("compiler error that cannot be attributed to a program: %s" % json.dumps(errs[:2]))
+            continue
+        codes = sorted(set(e[1] or "error" for e in errs))
+        files = sorted(set(os.path.basename(e[0]) for e in errs))
+        # shape programs hold several shapes: attribute to the type files (o12.rs -> shape 12)
+        detail = ""
+        if prog.cls == "type-shapes":
+            nums = sorted(set(int(x) for f in files for x in re.findall(r"^[oua](\d+)\.rs$", f)))
+            texts = [shs[n].text for n in nums if n < len(shs)]
+            detail = " shapes: " + ", ".join(texts[:6])
+            for t in texts:
+                known_cls = [x for x in shs if x.text == t and not space.compilable(x)]
+                shape_sig = "shape-class:map-value-with-bare-double-below-a-set|%s" % t if known_cls else "shape:%s" % t
+                rep.violation("C03|does-not-compile|%s|%s" % (shape_sig, ",".join(codes)), "generated code for a type of shape %s does not compile: %s" % (t, errs[0][2][:300]), {"program": pid, "label": prog.label})
+            if nums:
+                continue
+            detail = " (in the service / error files of the shape program)"
+        rep.violation("C03|does-not-compile|%s|%s" % (prog.cls, ",".join(codes)), "generated code does not compile for: %s —%s %s: %s" % (prog.label, detail, errs[0][1], errs[0][2][:300]), {"program": pid, "label": prog.label})
+    for pgen in generated:
+        if pgen.pid not in bad:
+            rep.outcome("compiles")
+    # one full crate (Cargo.toml emitted by the generator) checked with the runtime crates patched in
+    if not a.replay_case:
+        full_crate(rep, root, by_id)
+    rep.sample("names", {"program": "field / union variant named `await`", "positions": ["object field", "union variant", "endpoint", "path/query argument", "error argument", "package segment", "type", "enum value"]})
+    rep.sample("shapes", {"program": sp[0].label[:300] if sp else ""})
+    rep.sample("services", {"program": "service features (auth kinds, request context, binary bodies/returns, size limits, docs, markers, tags)"})
+    rep.bounds.update({"programs": len(progs), "shapes": len(shs), "keywords": len(KEYWORDS), "identifiers": len(IDENTS), "lower_case_names": len(LOCALS), "shape_depth": 2})
+    rep.rule = ("states = IR programs of the grammar: every type shape up to depth 2 as object field / union variant / alias target / error argument / endpoint body and return; PLAIN-capable types as path, query "
+                "(single, optional, list, set) and header parameters; recursion through optional/list/set/map/union/alias; one program per (name, position) for every Rust keyword and every identifier the generated "
+                "code uses; nested packages x stripPrefix; service features; configurations. Each program is generated in its own process and the output type-checked with cargo check")
+    rep.assumptions.append("only IR the Conjure compiler is known to accept is enumerated (no optional<optional>, no bearertoken path/query parameters, no enum value UNKNOWN, no empty enum, names in Conjure's case conventions)")
+    rep.assumptions.append("rustc (cargo check) is the oracle for 'compiles'")
+
+
+def full_crate(rep, root, by_id):
+    ir = recursion_program().ir
+    out = os.path.join(root, "fullcrate")
+    ok, err = H.generate(ir, out, crate=("verif-full-crate", "1.2.3"))
+    rep.states += 1
+    rep.evaluations += 1
+    if not ok:
+        rep.violation("C03|generation-failed|full-crate", "crate generation fails: %s" % err[-300:], {"program": "fullcrate"})
+        return
+    cfg = []
+    for c in ("conjure-object", "conjure-error", "conjure-http", "conjure-serde", "conjure-macros"):
+        cfg += ["--config", 'patch.crates-io.%s.path="/repo/%s"' % (c, c)]
+    if not os.path.exists(os.path.join(out, "Cargo.lock")):
+        shutil.copy(os.path.join(H.ROOT, "engines", "Cargo.lock"), os.path.join(out, "Cargo.lock"))
+    p = H.cargo(out, "check", cfg, json_messages=True)
+    errs = H.compile_errors(p.stdout)
+    if p.returncode != 0:
+        if errs:
+            rep.violation("C03|does-not-compile|full-crate", "the generated crate does not compile: %s" % errs[0][2][:300], {"program": "fullcrate"})
+        else:
+            rep.cap("cargo check of the generated full crate failed without compiler errors (offline resolution?): %s" % p.stderr[-500:])
+    else:
+        rep.outcome("full-crate-compiles")
